@@ -54,3 +54,15 @@ Definition from_attrs_ok (input out : list kv) : bool :=
 Definition later_wins_ok (ls : list (list kv)) (out : list kv) : bool :=
   sorted_unique_b out &&
   forallb (fun k => optv_eqb (assoc k out) (later_wins ls k)) (keys_of (concat ls) ++ keys_of out).
+
+(** Schema URL of a detector fold: the merge rule applied left to right, starting from the configured
+    URL; once two non-empty URLs differ the conflict is remembered and the final URL is empty. *)
+Definition schema_step (acc : bytes * bool) (sb : bytes) : bytes * bool :=
+  let '(sa, c) := acc in
+  if is_empty sa then (sb, c)
+  else if is_empty sb then (sa, c)
+  else if bytes_eqb sa sb then (sa, c)
+  else ([], true).
+Definition schema_fold (s0 : bytes) (l : list bytes) : bytes * bool := fold_left schema_step l (s0, false).
+Definition detect_schema_ok (s0 : bytes) (l : list bytes) (s : bytes) (conflict : bool) : bool :=
+  let '(e, c) := schema_fold s0 l in Bool.eqb conflict c && bytes_eqb s (if c then [] else e).
